@@ -160,7 +160,7 @@ def r_C04(root):
     lang = load(root, "textx/lang.py"); mm = load(root, "textx/metamodel.py")
     regs = {}
     for n in lang.body:
-        if isinstance(n, ast.Assign) and isinstance(n.value, ast.Call) and getattr(n.value.func, "id", None) == "_" and isinstance(n.targets[0], ast.Name):
+        if isinstance(n, ast.Assign) and isinstance(n.value, ast.Call) and getattr(n.value.func, "id", None) in ("_", "RegExMatch") and isinstance(n.targets[0], ast.Name):
             regs[n.targets[0].id] = const_str(n.value.args[0], lang)
             if regs[n.targets[0].id] is None: raise AnalysisError("regex of base type %s is not a constant string expression" % n.targets[0].id)
         if isinstance(n, ast.Assign) and isinstance(n.value, ast.Call) and getattr(n.value.func, "id", None) == "OrderedChoice" and isinstance(n.targets[0], ast.Name):
